@@ -337,6 +337,28 @@ Verdict runC11(const Case &cs) {
 
 } // namespace
 
+// exported for the history properties (C14-C16)
+void injectDefectPublic(Choices &c, RawGram &g) { std::set<std::string> lb; injectDefect(c, g, lb); }
+GramDef genTextGramPublic(Choices &c, int tier, bool mutate) {
+  std::set<std::string> lb;
+  TModel m = genModel(c, tier, lb);
+  GramDef td;
+  td.raw = denote(m);
+  td.strict = c.flip();
+  td.use_text = true;
+  td.text = printModel(c, m, nullptr);
+  if (mutate && !td.text.empty()) {
+    td.mutated = true;
+    int pos = c.upto((int)td.text.size() - 1);
+    switch (c.upto(2)) {
+    case 0: td.text.erase(pos, 1 + c.upto(3)); break;
+    case 1: td.text.insert(pos, 1, "'#|;:()-=/*9aA"[c.upto(13)]); break;
+    case 2: td.text.resize(pos); break;
+    }
+  }
+  return td;
+}
+
 extern const PropDef g_props_def[] = {
     {"C10", genC10, runC10,
      "random terminal/rule lists with 0-2 injected defects from the documented list (negative/repeated/reserved names and codes, no rules, terminal "
